@@ -105,7 +105,9 @@ def main():
         try: meta = json.load(open(os.path.join(d, 'meta.json')))
         except Exception: pass
         conf = confirm(d)
-        entry = {'id': '%s-%s' % (c, k), 'property': c, 'summary': meta.get('summary', ''), 'needs': meta.get('needs', ''), 'confirm': conf}
+        tag = opts.get('tag', '')
+        sid = '%s-%s%s' % (c, (tag + '-') if tag else '', k)
+        entry = {'id': sid, 'property': c, 'summary': meta.get('summary', ''), 'needs': meta.get('needs', ''), 'confirm': conf}
         if conf.get('confirmed') and 'nocheck' not in opts:
             checks = opts.get('checks', c).split(',')
             entry['checks'] = run_checks(d, checks, tier)
@@ -114,7 +116,7 @@ def main():
         if 'checks' in entry:
             for x, r in entry['checks'].items(): print('   ', x, r['rc'], r['kind'], (r['what'] or '')[:200], flush=True)
         if conf.get('confirmed'):
-            sd = os.path.join(VERIF, 'seeded', '%s-%s' % (c, k)); os.makedirs(sd, exist_ok=True)
+            sd = os.path.join(VERIF, 'seeded', sid); os.makedirs(sd, exist_ok=True)
             shutil.copy(os.path.join(d, 'patch.diff'), sd); shutil.copy(os.path.join(d, 'demo.py'), sd)
             m = dict(meta); m.update({'property': c, 'confirmed': conf, 'what_was_run': 'scratch worktree: git apply, baseline pytest command, demo.py with and without the patch; then /repo: git apply, ./check %s --tier %s, git checkout -- .' % (opts.get('checks', c), tier),
                                       'check_results': entry.get('checks'), 'caught_by': entry.get('caught_by')})
